@@ -575,12 +575,19 @@ func (t *Throttle) Submit(f func() error) error {
 		return ThrottleOverflow
 	}
 
+	// Whatever happens to the thunk (it might panic), this
+	// submission stops being pending.  Without the defer a panic
+	// left the count up for good, and once enough submissions had
+	// panicked every later one was refused.
+	defer func() {
+		t.Lock()
+		t.pending--
+		t.Unlock()
+	}()
+
 	var err error
 	var worked bool
 	for i := 0; i < attempts; i++ {
-		// Danger: If the given thunk panics, then the
-		// t.pending decrement below will not execute.  ToDo:
-		// Maybe pay the price of a defer to avoid this risk.
 		worked, err = t.Do(f)
 		if worked {
 			break
@@ -589,9 +596,6 @@ func (t *Throttle) Submit(f func() error) error {
 		// then retry.
 		time.Sleep(pause)
 	}
-	t.Lock()
-	t.pending--
-	t.Unlock()
 
 	if worked {
 		return err
